@@ -5,7 +5,7 @@ from vlib import zhex
 from checks import ebpf as B
 
 HEADER = '''From Coq Require Import ZArith List Bool.
-From RbpfV Require Import MachInt Cases HelperProofs Sqrt64.
+From RbpfV Require Import MachInt Cases HelperSpec Sqrt64.
 From RbpfV.gen Require Import Helpers.
 Import ListNotations.
 Open Scope Z_scope.
@@ -33,7 +33,7 @@ Definition check (c : hcase) : Z :=
 
 
 def run(chk):
-    res = vlib.prove(chk, ['Helpers'], ['theories/Cases.vo', 'theories/HelperProofs.vo', 'theories/Sqrt64.vo'], 'C19',
+    res = vlib.prove(chk, ['Helpers'], ['theories/Cases.vo', 'theories/HelperSpec.vo', 'theories/Sqrt64.vo'], 'C19',
                      ['theories/HelperProofs.v', 'theories/ArmVals.v', 'theories/BitLemmas.v'],
                      allow_axioms=('ClassicalDedekindReals.sig_forall_dec', 'ClassicalDedekindReals.sig_not_dec',
                                    'FunctionalExtensionality.functional_extensionality_dep', 'Classical_Prop.classic'))
